@@ -94,3 +94,60 @@ func provablyEmpty(v ssa.Value, b *ssa.BasicBlock) (bool, string) {
 	}
 	return true, ""
 }
+
+// c06AllSels: "every other selected position carries the same value it would have had without the
+// failure": the selection walker visits every selection of the set whatever the earlier ones did. Its loop
+// over the selection list is left only when the list is exhausted - no return and no break inside the body.
+func c06AllSels(c *Ctx, r *Report, a *Anchors, rule string) {
+	w := a.walker
+	if w == nil {
+		r.undecided(rule, "anchor: selection walker", 0, "not found")
+		return
+	}
+	r.fnSeen(fnName(w))
+	n := 0
+	for li, l := range loopsOf(w) {
+		// the loop that dispatches selections
+		dispatches := false
+		for b := range l.body {
+			for _, in := range b.Instrs {
+				if ci, ok := in.(ssa.CallInstruction); ok {
+					if cal := ci.Common().StaticCallee(); cal != nil && (cal == a.field || cal == a.inline || cal == a.spread) {
+						dispatches = true
+					}
+				}
+			}
+		}
+		if !dispatches {
+			continue
+		}
+		n++
+		bad := ""
+		var pos = loopPos(l)
+		for b := range l.body {
+			if b == l.head {
+				continue
+			}
+			for _, s := range b.Succs {
+				if !l.body[s] {
+					bad = "the body leaves the loop from block " + b.Comment
+					for _, in := range s.Instrs {
+						if in.Pos().IsValid() {
+							pos = in.Pos()
+							break
+						}
+					}
+				}
+			}
+			if len(b.Instrs) > 0 {
+				if rt, ok := b.Instrs[len(b.Instrs)-1].(*ssa.Return); ok {
+					bad = "the body returns"
+					pos = rt.Pos()
+				}
+			}
+		}
+		r.check(rule, fmt.Sprintf("%s: selection loop %d ends only when the selection list is exhausted", fnName(w), li+1), pos, bad == "",
+			bad+" before the remaining selections were looked at: after one failing field the fields selected after it are missing from data although their resolvers would have succeeded")
+	}
+	r.floor(rule, "dispatching loops in the selection walker", n, 1)
+}
